@@ -48,6 +48,34 @@ def tee_invariant(verifier):
     return out
 
 
+def hist_extended(verifier, ctx, old_hist, extra):
+    """lemma instances (proved once per run: contracts/extras.py seq_suffix_lemma) for every child counter y:
+         0 <= y <= |h|  =>  h[y:] ++ e == (h ++ e)[y:]
+    z3's sequence solver does not find this by itself inside the large path conditions of the lock jobs"""
+    H = verifier.impl_i.roots
+    g = H.get("ghost")
+    if not g:
+        return
+    n = z3.Length(old_hist)
+    new = z3.Concat(old_hist, extra)
+    for k in list(g):
+        if k.startswith("y") and k[1:].isdigit():
+            y = as_int(g[k])
+            y = y if not isinstance(y, int) else z3.IntVal(y)
+            ctx.assume(z3.Implies(z3.And(y >= 0, y <= n),
+                                  z3.Concat(z3.SubSeq(old_hist, y, n - y), extra) == z3.SubSeq(new, y, n + z3.Length(extra) - y)))
+
+
+def suffix_lemmas(ctx, h, y):
+    """lemma instances (proved once per run: extras.seq_suffix_lemma): for 0 <= y < |h|
+         (h[y:])[1:] == h[y+1:]   and   (h[y:])[0] == h[y]"""
+    n = z3.Length(h)
+    y = y if not isinstance(y, int) else z3.IntVal(y)
+    suf = z3.SubSeq(h, y, n - y)
+    ctx.assume(z3.Implies(z3.And(y >= 0, y < n),
+                          z3.And(z3.SubSeq(suf, 1, n - y - 1) == z3.SubSeq(h, y + 1, n - y - 1), suf[0] == h[y])))
+
+
 class TeeProtocol:
     def __init__(self, n):
         self.n = n
@@ -82,6 +110,8 @@ class TeeProtocol:
                 del H["cur"]
                 raise
             del H["cur"]
+            if ip.side == "impl":
+                suffix_lemmas(ip.ctx, g["hist"].to_seq(), as_int(g[f"y{i}"]))
             g[f"y{i}"] = mk_int(as_int(g[f"y{i}"]) + 1)
             return v
         m = ip.getattr(child, "aclose")
@@ -117,7 +147,7 @@ def jobs():
             return dict(iargs=[s, n], rargs=[s, n])
         J.append(Job(f"tee[n={n},no lock]", ("itertools", "tee"), None, mk, kind="protocol", props=("C09", "C04", "C01", "C20"), closes=False, release=False,
                      faults=True, thorough=thorough, max_paths=30000,
-                     opts={"protocol": TeeProtocol(n), "state_invariant": tee_invariant, "ghost_tee": True, "fault_kinds": ("raise",), "declared_only": True, "widen_lists": True, "lock_contract": True, "accumulates": "tee buffers hold the lead hist[y_p:] (invariant)", "fresh_solver": True,
+                     opts={"protocol": TeeProtocol(n), "state_invariant": tee_invariant, "ghost_tee": True, "ghost_lemma": hist_extended, "fault_kinds": ("raise",), "declared_only": True, "widen_lists": True, "lock_contract": True, "accumulates": "tee buffers hold the lead hist[y_p:] (invariant)", "fresh_solver": True,
                            "under_contract": [("itertools", "tee"), ("itertools", "tee_peer"), ("itertools", "_TeePeer"), ("itertools", "NoLock")]}))
     return J
 
@@ -138,18 +168,28 @@ def tee_interfere(verifier, ctx, ev):
     frames = [fr for fr in verifier.impl_i.frames if fr.name == "tee_peer"]
     if not frames:
         return
-    mybuf = frames[-1].env.get("buffer")
+    # the child whose advance is in progress (TeeProtocol.perform records it); suspended siblings have frames too
+    mybuf = _buffer_of(_children(H)[int(H["cur"])]) if "cur" in H else frames[-1].env.get("buffer")
     peers = _peers(H).items
+    # Owicki-Gries: the other children rely on the invariant, so it has to hold wherever they can run
+    if not verifier.check_state_invariant(ctx, None, "at a suspension point inside an advance"):
+        from pyvc.values import PathEnd
+        raise PathEnd()
     lock = verifier.env.cms.get("lock")
     holding = lock is not None and lock.held > 0
+    if ev.kind == "CM" and ev.payload[1] == "exit":
+        holding = False         # a release may suspend after the lock is free again: siblings can acquire it and fetch
     if ev.kind == "Pull" and lock is not None:
         verifier.prove(ctx, f"{verifier.job.name}/mutex/source-advanced-only-under-the-lock", "og-inv", holding,
                        detail="the source is advanced without holding the lock: two consumers could be inside the source at once")
-    can_fetch = not holding
+    src = verifier.env.sources.get("a")
+    # siblings fetch only while the lock is free and the source has not ended / failed
+    can_fetch = not holding and not (src is not None and (src.ended or src.state in ("exhausted", "raised", "closed")))
     hist = g["hist"].to_seq()
     if can_fetch:
         extra = ctx.fresh(SeqVal, "fetched_by_others")
         hist2 = z3.Concat(hist, extra)
+        hist_extended(verifier, ctx, hist, extra)
         g["hist"].seq = hist2
     else:
         extra = None
@@ -162,15 +202,23 @@ def tee_interfere(verifier, ctx, ev):
         if buf is mybuf:
             if extra is not None:
                 buf.widen()
-                buf.seq = z3.Concat(buf.seq, extra)
+                if "cur" in H:
+                    # invariant (just checked) + lemma: buffer ++ extra == hist2[y:]
+                    y_me = as_int(g[f"y{H['cur']}"])
+                    buf.seq = z3.SubSeq(hist2, y_me, n2 - y_me)
+                else:
+                    buf.seq = z3.Concat(buf.seq, extra)
             continue
         if not simple and ctx.choose(2, f"interference: child {q} closed meanwhile") == 1:
             for idx, b in enumerate(peers):
                 if b is buf:
                     peers.pop(idx)
                     break
+            # _TeePeer.aclose of the sibling: unregisters its buffer and drops its backlog
+            buf.widen()
+            buf.seq = z3.Empty(SeqVal)
             H[f"done{q}"] = "1"
-            H[f"deadlen{q}"] = mk_int(z3.Length(buf.to_seq()))
+            H[f"deadlen{q}"] = 0
             continue
         y_old = as_int(g[f"y{q}"])
         y2 = ctx.fresh(z3.IntSort(), f"y{q}")
@@ -198,23 +246,28 @@ def _lock_jobs():
         return dict(iargs=[s, n], rargs=[s, n], ikw={"lock": lock}, rkw={"lock": lock})
     out.append(Job(f"tee[n={n},lock]", ("itertools", "tee"), None, mk, kind="protocol", props=("C09", "C18", "C04", "C20"), closes=False, release=False,
                    faults=True, max_paths=30000,
-                   opts={"protocol": TeeProtocol(n), "state_invariant": tee_lock_invariant, "ghost_tee": True, "fault_kinds": ("raise", "cancel"), "declared_only": True, "widen_lists": True, "lock_contract": True, "accumulates": "tee buffers hold the lead hist[y_p:] (invariant)", "thorough_only": True,
+                   opts={"protocol": TeeProtocol(n), "state_invariant": tee_lock_invariant, "ghost_tee": True, "ghost_lemma": hist_extended, "fault_kinds": ("raise", "cancel"), "declared_only": True, "widen_lists": True, "lock_contract": True, "accumulates": "tee buffers hold the lead hist[y_p:] (invariant)", "thorough_only": True,
                          "fresh_solver": True, "at_suspension": tee_interfere, "suspend_at_pull": True, "budget_s": 1200,
                          "under_contract": [("itertools", "tee"), ("itertools", "tee_peer"), ("itertools", "_TeePeer")]}))
-    # interference only while WAITING for the lock (other children fetch and yield meanwhile): the case the re-check
-    # after acquiring the lock exists for; the source itself does not suspend in this job
-    out.append(Job(f"tee[n={n},lock,interference while waiting for the lock]", ("itertools", "tee"), None, mk, kind="protocol", props=("C09", "C18", "C04", "C20"),
-                   closes=False, release=False, faults=False, max_paths=30000,
-                   opts={"protocol": TeeProtocol(n), "state_invariant": tee_lock_invariant, "ghost_tee": True,
-                         "declared_only": True, "widen_lists": True, "fresh_solver": True, "lock_contract": True,
-                         "at_suspension": tee_interfere, "interfere_only": ("enter",), "interfere_simple": True, "thorough_only": True, "budget_s": 1200,
-                         "accumulates": "tee buffers hold the lead hist[y_p:] (invariant)",
-                         "under_contract": [("itertools", "tee"), ("itertools", "tee_peer"), ("itertools", "_TeePeer")]}))
+    # interference at ONE kind of suspension point per job (they run in parallel): while waiting for the lock (other
+    # children fetch and yield meanwhile: the case the re-check after acquiring the lock exists for), while the lock
+    # is being released (the fetched item must already be published), and inside the source with the lock held (other
+    # children yield from their buffers but cannot fetch).  Siblings are not closed meanwhile and nothing fails in these
+    # jobs; the thorough-only job above combines all of it.
+    for point, label in (("enter", "interference while waiting for the lock"), ("exit", "interference while releasing the lock"),
+                         ("pull", "interference inside the source")):
+        out.append(Job(f"tee[n={n},lock,{label}]", ("itertools", "tee"), None, mk, kind="protocol", props=("C09", "C18", "C04", "C20"),
+                       closes=False, release=False, faults=False, max_paths=30000,
+                       opts={"protocol": TeeProtocol(n), "state_invariant": tee_lock_invariant, "ghost_tee": True, "ghost_lemma": hist_extended,
+                             "declared_only": True, "widen_lists": True, "fresh_solver": True, "lock_contract": True,
+                             "at_suspension": tee_interfere, "suspend_at_pull": point == "pull", "interfere_only": (point,), "interfere_simple": True, "budget_s": 1200,
+                             "accumulates": "tee buffers hold the lead hist[y_p:] (invariant)",
+                             "under_contract": [("itertools", "tee"), ("itertools", "tee_peer"), ("itertools", "_TeePeer")]}))
     # the same with a user lock but without interference inside the lock/source (children interleave at their yields
     # only): cheap, and enough for `the lock is never held across a yield` and for lock release on faults
     out.append(Job(f"tee[n={n},lock,interleaving at yields]", ("itertools", "tee"), None, mk, kind="protocol", props=("C09", "C18", "C04", "C20"),
                    closes=False, release=False, faults=True, max_paths=30000,
-                   opts={"protocol": TeeProtocol(n), "state_invariant": tee_lock_invariant, "ghost_tee": True, "fault_kinds": ("raise", "cancel"),
+                   opts={"protocol": TeeProtocol(n), "state_invariant": tee_lock_invariant, "ghost_tee": True, "ghost_lemma": hist_extended, "fault_kinds": ("raise", "cancel"),
                          "declared_only": True, "widen_lists": True, "lock_contract": True, "fresh_solver": True,
                          "accumulates": "tee buffers hold the lead hist[y_p:] (invariant)",
                          "under_contract": [("itertools", "tee"), ("itertools", "tee_peer"), ("itertools", "_TeePeer")]}))
